@@ -156,7 +156,7 @@ def gen_netlist(rng, polarity='mixed', icmode='none', srckw='same', extras=True,
             b.tags.add('parallel_' + ty)
     if extras:
         for _ in range(rng.randint(0, 2)):
-            k = rng.choice(['dangle', 'dangle2', 'wire', 'E', 'gndR', 'disc'])
+            k = rng.choice(['dangle', 'dangle2', 'wire', 'E', 'Ealias', 'Ealias', 'gndR', 'disc'])
             anyn = sorted({t for l in b.lines for t in l.split()[1:3]})
             if k == 'dangle':
                 b.elem(rng.choice(['R', 'C', 'L', 'W']), rng.choice(anyn), b.fresh(), rng.random() < 0.5)
@@ -185,6 +185,22 @@ def gen_netlist(rng, polarity='mixed', icmode='none', srckw='same', extras=True,
                 b.lines.append('%s %s 0 %s %s %s' % (b.name('E'), o, c1, c2, fs(val(rng, 1, 4))))
                 b.lines.append('%s %s 0 %s' % (b.name('R'), o, fs(val(rng))))
                 b.tags.add('E')
+            elif k == 'Ealias':
+                # a controlled source that senses a series-chain joint (or any node) through a WIRE ALIAS whose
+                # name is not the canonical name of the equipotential class (it sorts after it / has an underscore)
+                joints = [t for t in anyn if t.startswith('n')] or [t for t in anyn if t != '0']
+                if joints:
+                    x = rng.choice(joints if rng.random() < 0.8 else [t for t in anyn if t != '0'])
+                    alias = rng.choice([x + '_1', 'z%d' % rng.randint(10, 99), 'y%d' % rng.randint(10, 99)])
+                    if not any(alias in l.split() for l in b.lines):
+                        b.lines.append('W %s %s' % ((x, alias) if rng.random() < 0.5 else (alias, x)))
+                        o = b.fresh()
+                        ref = rng.choice(['0', '0', rng.choice(anyn)])
+                        cn = (alias, ref) if rng.random() < 0.7 else (ref, alias)
+                        kind = rng.choice(['E', 'E', 'G'])
+                        b.lines.append('%s %s 0 %s %s %s' % (b.name(kind), o, cn[0], cn[1], fs(val(rng, 1, 4))))
+                        b.lines.append('%s %s 0 %s' % (b.name('R'), o, fs(val(rng))))
+                        b.tags.add('sensed_alias')
             elif k == 'gndR':
                 x = rng.choice([t for t in anyn if t != '0'] or ['1'])
                 b.elem('R', x, '0', rng.random() < 0.5)
